@@ -4535,9 +4535,14 @@ load_message (DBusMessageLoader *loader,
         {
           _dbus_verbose ("Failed to validate message body code %d\n", validity);
 
-          loader->corrupted = TRUE;
-          loader->corruption_reason = validity;
-          
+          if (validity == DBUS_VALIDITY_UNKNOWN_OOM_ERROR)
+            oom = TRUE;
+          else
+            {
+              loader->corrupted = TRUE;
+              loader->corruption_reason = validity;
+            }
+
           goto failed;
         }
     }
